@@ -96,7 +96,10 @@ func (p *Program) CheckClause(c *Contract, cl *Clause, pos token.Pos, sc *clause
 			}
 		}
 	}
-	expr := cl.Expr
+	if cl.orig == nil {
+		cl.orig = cl.Expr
+	}
+	expr := cl.orig
 	var rewrite func(n ast.Node) ast.Node
 	bound := map[string]int{}
 	rewrite = func(n ast.Node) ast.Node { return n }
@@ -114,6 +117,11 @@ func (p *Program) CheckClause(c *Contract, cl *Clause, pos token.Pos, sc *clause
 		}
 		if to, ok := ren[id.Name]; ok {
 			return ast.NewIdent(to)
+		}
+		if c != nil {
+			if to, ok := c.LocalRen[id.Name]; ok {
+				return ast.NewIdent(to)
+			}
 		}
 		return nil
 	}, bound)
